@@ -201,6 +201,44 @@ EXTRA = [
     ("fault_in_else_if_condition", 'print "@@RUN@@"\nn = 3\nif n > 5 {\n  q = 1\n} else if "medium" - 1 {\n  q = 2\n}\n'),
     ("fault_in_else_if_body", 'print "@@RUN@@"\nn = 3\nif n > 5 {\n  q = 1\n} else if n > 1 {\n  q = zz_undefined\n} else {\n  q = 3\n}\n'),
     ("fault_in_nested_else", 'print "@@RUN@@"\nn = 3\nif n > 5 {\n  q = 1\n} else {\n  if n > 1 {\n    q = 2\n  } else {\n    q: int = "s"\n  }\n}\n'),
+    # third session (area round): an index whose static type is no index type, as a *variable* (the constant forms
+    # are folded on another path), in every index position; a method named but not called at the end of a chain
+    ("non_index_variable:float:read", 'print "@@RUN@@"\nxs: [int...] = [1, 2, 3]\nsx = "abc"\nat = 1.0\nprint xs[at]\n'),
+    ("non_index_variable:float:assign", 'print "@@RUN@@"\nxs: [int...] = [1, 2, 3]\nsx = "abc"\nat = 1.0\nxs[at] = 5\n'),
+    ("non_index_variable:float:opassign", 'print "@@RUN@@"\nxs: [int...] = [1, 2, 3]\nsx = "abc"\nat = 1.0\nxs[at] += 5\n'),
+    ("non_index_variable:float:str_read", 'print "@@RUN@@"\nxs: [int...] = [1, 2, 3]\nsx = "abc"\nat = 1.0\nprint sx[at]\n'),
+    ("non_index_variable:float_param:read", 'print "@@RUN@@"\nxs: [int...] = [1, 2, 3]\nsx = "abc"\npick = fn(at: float) {\n  print xs[at]\n}\npick(1.0)\n'),
+    ("non_index_variable:float_param:assign", 'print "@@RUN@@"\nxs: [int...] = [1, 2, 3]\nsx = "abc"\npick = fn(at: float) {\n  xs[at] = 5\n}\npick(1.0)\n'),
+    ("non_index_variable:float_param:opassign", 'print "@@RUN@@"\nxs: [int...] = [1, 2, 3]\nsx = "abc"\npick = fn(at: float) {\n  xs[at] += 5\n}\npick(1.0)\n'),
+    ("non_index_variable:float_param:str_read", 'print "@@RUN@@"\nxs: [int...] = [1, 2, 3]\nsx = "abc"\npick = fn(at: float) {\n  print sx[at]\n}\npick(1.0)\n'),
+    ("non_index_variable:bool:read", 'print "@@RUN@@"\nxs: [int...] = [1, 2, 3]\nsx = "abc"\nat = true\nprint xs[at]\n'),
+    ("non_index_variable:bool:assign", 'print "@@RUN@@"\nxs: [int...] = [1, 2, 3]\nsx = "abc"\nat = true\nxs[at] = 5\n'),
+    ("non_index_variable:bool:opassign", 'print "@@RUN@@"\nxs: [int...] = [1, 2, 3]\nsx = "abc"\nat = true\nxs[at] += 5\n'),
+    ("non_index_variable:bool:str_read", 'print "@@RUN@@"\nxs: [int...] = [1, 2, 3]\nsx = "abc"\nat = true\nprint sx[at]\n'),
+    ("non_index_variable:str:read", 'print "@@RUN@@"\nxs: [int...] = [1, 2, 3]\nsx = "abc"\nat = "1"\nprint xs[at]\n'),
+    ("non_index_variable:str:assign", 'print "@@RUN@@"\nxs: [int...] = [1, 2, 3]\nsx = "abc"\nat = "1"\nxs[at] = 5\n'),
+    ("non_index_variable:str:opassign", 'print "@@RUN@@"\nxs: [int...] = [1, 2, 3]\nsx = "abc"\nat = "1"\nxs[at] += 5\n'),
+    ("non_index_variable:str:str_read", 'print "@@RUN@@"\nxs: [int...] = [1, 2, 3]\nsx = "abc"\nat = "1"\nprint sx[at]\n'),
+    ("non_index_variable:float_captured:read", 'print "@@RUN@@"\nxs: [int...] = [1, 2, 3]\nsx = "abc"\nat = 2.0\npick = fn() {\n  print xs[at]\n}\npick()\n'),
+    ("non_index_variable:float_captured:assign", 'print "@@RUN@@"\nxs: [int...] = [1, 2, 3]\nsx = "abc"\nat = 2.0\npick = fn() {\n  xs[at] = 5\n}\npick()\n'),
+    ("non_index_variable:float_captured:opassign", 'print "@@RUN@@"\nxs: [int...] = [1, 2, 3]\nsx = "abc"\nat = 2.0\npick = fn() {\n  xs[at] += 5\n}\npick()\n'),
+    ("non_index_variable:float_captured:str_read", 'print "@@RUN@@"\nxs: [int...] = [1, 2, 3]\nsx = "abc"\nat = 2.0\npick = fn() {\n  print sx[at]\n}\npick()\n'),
+    ("non_index_variable:optional_int:read", 'print "@@RUN@@"\nxs: [int...] = [1, 2, 3]\nsx = "abc"\nat: int? = 1\nprint xs[at]\n'),
+    ("non_index_variable:optional_int:assign", 'print "@@RUN@@"\nxs: [int...] = [1, 2, 3]\nsx = "abc"\nat: int? = 1\nxs[at] = 5\n'),
+    ("non_index_variable:optional_int:opassign", 'print "@@RUN@@"\nxs: [int...] = [1, 2, 3]\nsx = "abc"\nat: int? = 1\nxs[at] += 5\n'),
+    ("non_index_variable:optional_int:str_read", 'print "@@RUN@@"\nxs: [int...] = [1, 2, 3]\nsx = "abc"\nat: int? = 1\nprint sx[at]\n'),
+    ("uncalled_method_at_end_of_chain:field_then_method", 'print "@@RUN@@"\nclass Eng {\n  p: int\n  constructor(self) {\n    self.p = 9\n  }\n  fn describe(self) -> int {\n    return self.p\n  }\n}\nclass Car {\n  engine: Eng\n  constructor(self) {\n    self.engine = Eng()\n  }\n  fn me(self) -> Self {\n    return self\n  }\n  fn eng(self) -> Eng {\n    return self.engine\n  }\n}\ncar = Car()\ndet = car.engine.describe\nprint "kept"\n'),
+    ("uncalled_method_at_end_of_chain:field_then_method:argument", 'print "@@RUN@@"\nclass Eng {\n  p: int\n  constructor(self) {\n    self.p = 9\n  }\n  fn describe(self) -> int {\n    return self.p\n  }\n}\nclass Car {\n  engine: Eng\n  constructor(self) {\n    self.engine = Eng()\n  }\n  fn me(self) -> Self {\n    return self\n  }\n  fn eng(self) -> Eng {\n    return self.engine\n  }\n}\ncar = Car()\nuse = fn(f: fn() -> int) -> int {\n  return 1\n}\nprint use(car.engine.describe)\n'),
+    ("uncalled_method_at_end_of_chain:call_then_method", 'print "@@RUN@@"\nclass Eng {\n  p: int\n  constructor(self) {\n    self.p = 9\n  }\n  fn describe(self) -> int {\n    return self.p\n  }\n}\nclass Car {\n  engine: Eng\n  constructor(self) {\n    self.engine = Eng()\n  }\n  fn me(self) -> Self {\n    return self\n  }\n  fn eng(self) -> Eng {\n    return self.engine\n  }\n}\ncar = Car()\ndet = car.me().me\nprint "kept"\n'),
+    ("uncalled_method_at_end_of_chain:call_then_method:argument", 'print "@@RUN@@"\nclass Eng {\n  p: int\n  constructor(self) {\n    self.p = 9\n  }\n  fn describe(self) -> int {\n    return self.p\n  }\n}\nclass Car {\n  engine: Eng\n  constructor(self) {\n    self.engine = Eng()\n  }\n  fn me(self) -> Self {\n    return self\n  }\n  fn eng(self) -> Eng {\n    return self.engine\n  }\n}\ncar = Car()\nuse = fn(f: fn() -> int) -> int {\n  return 1\n}\nprint use(car.me().me)\n'),
+    ("uncalled_method_at_end_of_chain:call_then_field_then_method", 'print "@@RUN@@"\nclass Eng {\n  p: int\n  constructor(self) {\n    self.p = 9\n  }\n  fn describe(self) -> int {\n    return self.p\n  }\n}\nclass Car {\n  engine: Eng\n  constructor(self) {\n    self.engine = Eng()\n  }\n  fn me(self) -> Self {\n    return self\n  }\n  fn eng(self) -> Eng {\n    return self.engine\n  }\n}\ncar = Car()\ndet = car.me().engine.describe\nprint "kept"\n'),
+    ("uncalled_method_at_end_of_chain:call_then_field_then_method:argument", 'print "@@RUN@@"\nclass Eng {\n  p: int\n  constructor(self) {\n    self.p = 9\n  }\n  fn describe(self) -> int {\n    return self.p\n  }\n}\nclass Car {\n  engine: Eng\n  constructor(self) {\n    self.engine = Eng()\n  }\n  fn me(self) -> Self {\n    return self\n  }\n  fn eng(self) -> Eng {\n    return self.engine\n  }\n}\ncar = Car()\nuse = fn(f: fn() -> int) -> int {\n  return 1\n}\nprint use(car.me().engine.describe)\n'),
+    ("uncalled_method_at_end_of_chain:two_calls_then_method", 'print "@@RUN@@"\nclass Eng {\n  p: int\n  constructor(self) {\n    self.p = 9\n  }\n  fn describe(self) -> int {\n    return self.p\n  }\n}\nclass Car {\n  engine: Eng\n  constructor(self) {\n    self.engine = Eng()\n  }\n  fn me(self) -> Self {\n    return self\n  }\n  fn eng(self) -> Eng {\n    return self.engine\n  }\n}\ncar = Car()\ndet = car.me().eng().describe\nprint "kept"\n'),
+    ("uncalled_method_at_end_of_chain:two_calls_then_method:argument", 'print "@@RUN@@"\nclass Eng {\n  p: int\n  constructor(self) {\n    self.p = 9\n  }\n  fn describe(self) -> int {\n    return self.p\n  }\n}\nclass Car {\n  engine: Eng\n  constructor(self) {\n    self.engine = Eng()\n  }\n  fn me(self) -> Self {\n    return self\n  }\n  fn eng(self) -> Eng {\n    return self.engine\n  }\n}\ncar = Car()\nuse = fn(f: fn() -> int) -> int {\n  return 1\n}\nprint use(car.me().eng().describe)\n'),
+    ("uncalled_method_at_end_of_chain:single_link", 'print "@@RUN@@"\nclass Eng {\n  p: int\n  constructor(self) {\n    self.p = 9\n  }\n  fn describe(self) -> int {\n    return self.p\n  }\n}\nclass Car {\n  engine: Eng\n  constructor(self) {\n    self.engine = Eng()\n  }\n  fn me(self) -> Self {\n    return self\n  }\n  fn eng(self) -> Eng {\n    return self.engine\n  }\n}\ncar = Car()\ndet = car.me\nprint "kept"\n'),
+    ("uncalled_method_at_end_of_chain:single_link:argument", 'print "@@RUN@@"\nclass Eng {\n  p: int\n  constructor(self) {\n    self.p = 9\n  }\n  fn describe(self) -> int {\n    return self.p\n  }\n}\nclass Car {\n  engine: Eng\n  constructor(self) {\n    self.engine = Eng()\n  }\n  fn me(self) -> Self {\n    return self\n  }\n  fn eng(self) -> Eng {\n    return self.engine\n  }\n}\ncar = Car()\nuse = fn(f: fn() -> int) -> int {\n  return 1\n}\nprint use(car.me)\n'),
+    ("uncalled_method_at_end_of_chain:builtin_after_field", 'print "@@RUN@@"\nclass Eng {\n  p: int\n  constructor(self) {\n    self.p = 9\n  }\n  fn describe(self) -> int {\n    return self.p\n  }\n}\nclass Car {\n  engine: Eng\n  constructor(self) {\n    self.engine = Eng()\n  }\n  fn me(self) -> Self {\n    return self\n  }\n  fn eng(self) -> Eng {\n    return self.engine\n  }\n}\ncar = Car()\ndet = car.engine.p.abs\nprint "kept"\n'),
+    ("uncalled_method_at_end_of_chain:builtin_after_field:argument", 'print "@@RUN@@"\nclass Eng {\n  p: int\n  constructor(self) {\n    self.p = 9\n  }\n  fn describe(self) -> int {\n    return self.p\n  }\n}\nclass Car {\n  engine: Eng\n  constructor(self) {\n    self.engine = Eng()\n  }\n  fn me(self) -> Self {\n    return self\n  }\n  fn eng(self) -> Eng {\n    return self.engine\n  }\n}\ncar = Car()\nuse = fn(f: fn() -> int) -> int {\n  return 1\n}\nprint use(car.engine.p.abs)\n'),
     ("call_result_of_call_arg_type", 'print "@@RUN@@"\nf = fn(a: str) -> int {\n  return 1\n}\ng = fn(b: int) -> int {\n  return b\n}\nprint f(g(1))\n'),
 ]
 
